@@ -51,7 +51,7 @@ func TestRoute(t *testing.T) {
 	out := rec.Default()
 	nFair, nHostile := 260, 200
 	if rec.Thorough() {
-		nFair, nHostile = 2500, 2500
+		nFair, nHostile = 1800, 1800
 	}
 	prop := rec.Prop()
 	switch prop { // each check puts its budget where its oracle bites
